@@ -120,7 +120,7 @@ class Batch:
                 g = self.sums.setdefault(group, {})
                 for k, v in d.items():
                     if isinstance(v, (int, float)):
-                        g[k] = g.get(k, 0) + v
+                        g[k] = max(g.get(k, 0), v) if k.endswith('_max') else g.get(k, 0) + v
         if res.get('violations'):
             self.n_violating += 1
             for v in res['violations']:
